@@ -1,67 +1,60 @@
 (* C20 — reported feature minima, maxima and means match the data.
    Property theorems only; each is closed by [exact] of a lemma proved in
    Proofs/C20.v and followed by Print Assumptions.
-   The model follows writer.py with the repair fixes_proposed/
-   C20-mean-nan-weight.diff (mean weighted by the number of non-NaN values). *)
+   The model follows writer.py as repaired by 0e55a66 (mean weighted by the
+   number of non-NaN values), 7d1f64d (per-writer count validated by the dataset
+   size) and 4c79364 (summaries of the values as stored). *)
 From Coq Require Import ZArith List Bool.
 From Verif Require Import Model.C20 Proofs.C20.
 Import ListNotations.
 Open Scope Z_scope.
 
-(* For every history of writer sessions (append/replace/reset, any partition
-   into write calls, NaN/inf anywhere, all-NaN batches), copies and files
-   lacking some stored summaries: the values are those written since the last
-   replace/reset and the minimum, maximum and mean the feature object reports
-   are the NaN-ignoring minimum, maximum and (exact) mean of these values. *)
-Theorem C20_reported_summaries :
-  forall (ops : list op) (d : sdset),
-    ds (run init ops) = Some d ->
-    d_vals d = spec_vals 0 [] ops
+(* ======== theorems about the code (tied by harness/c20.py) ======================== *)
+
+(* For every feature dtype (forced uint32/uint64, or taken from the first array),
+   every history of writer instances (several may be alive on one file and write
+   in any interleaving; append/replace/reset; any partition into calls; NaN/inf
+   and values the dtype cannot hold anywhere; all-NaN batches), copies, files
+   written without the writer and files lacking any subset of the summary
+   attributes: the stored values are those written since the last replace/reset
+   (converted to the dataset's dtype) and the minimum, maximum and mean the
+   feature object reports are the NaN-ignoring minimum, maximum and (exact)
+   mean of the STORED values.
+   The full statement is refuted (known finding C20-two-writers-replace-same-
+   size: the per-writer (size, count) cache is validated by the size only); it
+   holds under [hist_ok]: a writer in replace mode writes only while no live
+   writer that is not in replace mode holds a count for the dataset.
+   (For a dataset without events numpy and dclab raise; the model's NaN stands
+   for "undefined" there.) *)
+Theorem C20_reported_summaries_refuted :
+  exists (forced : option dtk) (ops : list op) (d : sdset),
+    ds (run forced init ops) = Some d
+    /\ ~ mv_eq (rep_mean d) (nanmean_l (d_vals d)).
+Proof. exact reported_summaries_refuted. Qed.
+Print Assumptions C20_reported_summaries_refuted.
+
+Theorem C20_reported_summaries_partial :
+  forall (forced : option dtk) (ops : list op) (d : sdset),
+    hist_ok forced init ops = true ->
+    ds (run forced init ops) = Some d ->
+    spec_vals forced ops = Some (d_dt d, d_vals d)
     /\ rep_min d = nanmin_l (d_vals d)
     /\ rep_max d = nanmax_l (d_vals d)
     /\ mv_eq (rep_mean d) (nanmean_l (d_vals d)).
 Proof. exact reported_summaries. Qed.
-Print Assumptions C20_reported_summaries.
+Print Assumptions C20_reported_summaries_partial.
 
-(* The stored attributes themselves (copied verbatim by rtdc_copy, i.e. by
-   compress/repack, and read by every later reader) are right whenever present. *)
-Theorem C20_stored_summaries :
-  forall (ops : list op) (d : sdset),
-    ds (run init ops) = Some d ->
-    (forall v, a_min d = Some v -> v = nanmin_l (spec_vals 0 [] ops))
-    /\ (forall v, a_max d = Some v -> v = nanmax_l (spec_vals 0 [] ops))
-    /\ (forall m, a_mean d = Some m -> mv_eq m (nanmean_l (spec_vals 0 [] ops))).
+(* The stored attributes themselves (copied verbatim by rtdc_copy and read by
+   every later reader and writer) are right whenever present. *)
+Theorem C20_stored_summaries_partial :
+  forall (forced : option dtk) (ops : list op) (d : sdset),
+    hist_ok forced init ops = true ->
+    ds (run forced init ops) = Some d ->
+    (forall v, a_min d = Some v -> v = nanmin_l (d_vals d))
+    /\ (forall v, a_max d = Some v -> v = nanmax_l (d_vals d))
+    /\ (forall m, a_mean d = Some m -> mv_eq m (nanmean_l (d_vals d))).
 Proof. exact stored_summaries. Qed.
-Print Assumptions C20_stored_summaries.
-
-(* The running extrema are exact for any split of the data. *)
-Theorem C20_nanmin_split :
-  forall a b : list fv, nanmin_l (a ++ b) = nanmin2 (nanmin_l a) (nanmin_l b).
-Proof. exact nanmin_l_app. Qed.
-Print Assumptions C20_nanmin_split.
-
-Theorem C20_nanmax_split :
-  forall a b : list fv, nanmax_l (a ++ b) = nanmax2 (nanmax_l a) (nanmax_l b).
-Proof. exact nanmax_l_app. Qed.
-Print Assumptions C20_nanmax_split.
-
-(* The weighted mean update is exact when the weights count non-NaN values. *)
-Theorem C20_mean_update_exact :
-  forall (a b : list fv) (ma : mv),
-    0 < count_valid a -> 0 < count_valid b -> mv_eq ma (nanmean_l a) ->
-    mv_eq (mdiv (madd (mscale ma (count_valid a)) (mscale (nanmean_l b) (count_valid b)))
-                (count_valid a + count_valid b))
-          (nanmean_l (a ++ b)).
-Proof. exact mean_update. Qed.
-Print Assumptions C20_mean_update_exact.
-
-(* The update as written before the repair (weights: offset and data.size)
-   is refuted: [1, NaN, NaN] followed by [3] yields 1.5, not 2. *)
-Theorem C20_size_weighted_mean_refuted :
-  exists old data : list fv,
-    ~ mv_eq (old_mean_update (nanmean_l old) old data) (nanmean_l (old ++ data)).
-Proof. exact old_mean_refuted. Qed.
-Print Assumptions C20_size_weighted_mean_refuted.
+Print Assumptions C20_stored_summaries_partial.
 
 (* Hierarchy children: after any history of parent filter changes, child
    refreshes and queries (the ChildScalar object caches its array and its
@@ -85,6 +78,40 @@ Theorem C20_mapped_basin_history :
     fst (hquery (hrun (binit bm vals) ops) w) = spec_b bm vals w.
 Proof. exact basin_history. Qed.
 Print Assumptions C20_mapped_basin_history.
+
+(* ======== arithmetic lemmas (no code counterpart of their own; they are the
+   steps of the proofs above and state what any incremental or chunk-wise
+   computation of the summaries has to satisfy) ======================================= *)
+
+(* The running extrema are exact for any split of the data. *)
+Theorem C20_nanmin_split :
+  forall a b : list fv, nanmin_l (a ++ b) = nanmin2 (nanmin_l a) (nanmin_l b).
+Proof. exact nanmin_l_app. Qed.
+Print Assumptions C20_nanmin_split.
+
+Theorem C20_nanmax_split :
+  forall a b : list fv, nanmax_l (a ++ b) = nanmax2 (nanmax_l a) (nanmax_l b).
+Proof. exact nanmax_l_app. Qed.
+Print Assumptions C20_nanmax_split.
+
+(* The weighted mean update is exact when the weights count non-NaN values. *)
+Theorem C20_mean_update_exact :
+  forall (a b : list fv) (ma : mv),
+    0 < count_valid a -> 0 < count_valid b -> mv_eq ma (nanmean_l a) ->
+    mv_eq (mdiv (madd (mscale ma (count_valid a)) (mscale (nanmean_l b) (count_valid b)))
+                (count_valid a + count_valid b))
+          (nanmean_l (a ++ b)).
+Proof. exact mean_update. Qed.
+Print Assumptions C20_mean_update_exact.
+
+(* Documents the repaired defect 0e55a66 (DESIGN section 10); tied to nothing:
+   the update as written before the repair (weights: offset and data.size)
+   is refuted: [1, NaN, NaN] followed by [3] yields 1.5, not 2. *)
+Theorem C20_size_weighted_mean_refuted :
+  exists old data : list fv,
+    ~ mv_eq (old_mean_update (nanmean_l old) old data) (nanmean_l (old ++ data)).
+Proof. exact old_mean_refuted. Qed.
+Print Assumptions C20_size_weighted_mean_refuted.
 
 (* Chunk-wise reduction over the HDF5 chunks of a dataset (any chunking, any
    distribution of NaN/inf): extrema of chunk extrema and the mean of chunk
